@@ -394,7 +394,8 @@ func genRate(r *rand.Rand, e uint32, weird bool) rateIn {
 			rt.SurPct, rt.SurAmt = &s, &a
 		}
 	} else if weird && r.Intn(3) == 0 {
-		// an exempt group carrying a surcharge: schema-valid JSON can say this
+		// an exempt group carrying a surcharge: schema-valid JSON can say this (Merge
+		// used to dereference nil when only the second operand's group had one)
 		s := *surPool[r.Intn(len(surPool))]
 		a := randAmt(r, e)
 		rt.SurPct, rt.SurAmt = &s, &a
@@ -1228,12 +1229,11 @@ func judge(c *core.Ctx, t tcase, o goOut, resp []string, idx int) {
 			}
 			uniform = uniform && ok && e == e0
 		}
+		if weird {
+			c.Count("seq:exempt-with-surcharge", 1)
+		}
 		if o.res == "panic" || o.aux[0] == "panic" {
-			class := ""
-			if weird {
-				class = "merge-exempt-group-with-surcharge"
-			}
-			c.Fail(class, "Total.Merge panicked while folding a sequence of summaries", t)
+			c.Fail("", "Total.Merge panicked while folding a sequence of summaries", t)
 			return
 		}
 		if !uniform {
@@ -1244,8 +1244,6 @@ func judge(c *core.Ctx, t tcase, o goOut, resp []string, idx int) {
 			class := ""
 			if dup {
 				class = "duplicate-groups-in-summary"
-			} else if weird {
-				class = "merge-exempt-group-with-surcharge"
 			}
 			c.Fail(class, fmt.Sprintf("merging a sequence of %d summaries in two different orders gives different figures: %s vs %s", len(t.Seq), o.res, o.aux[0]), t)
 		}
@@ -1363,16 +1361,15 @@ func judgeMerge(c *core.Ctx, t tcase, o goOut, resp []string, key string) {
 		c.Count("merge:mixed-precision", 1)
 	}
 	// --- the property on the Go outputs
+	// Merge is total for every pair of summaries (the model has no panic to predict)
 	if o.pan != "" || o.aux[0] == "panic" || o.aux[1] == "panic" {
-		class := ""
-		if weird {
-			class = "merge-exempt-group-with-surcharge"
+		what := "t1.Merge(t2) panicked: " + o.pan
+		if o.pan == "" && o.aux[0] == "panic" {
+			what = "t2.Merge(t1) panicked (t1.Merge(t2) did not)"
+		} else if o.pan == "" {
+			what = "t1.Merge(t1.Negate()) panicked"
 		}
-		c.Fail(class, "Total.Merge panicked: "+o.pan, t)
-		// still compare the panic prediction of the model
-		if (mm == "panic") != (o.pan != "") {
-			c.TieBroken("drive:C20/merge", fmt.Sprintf("model %s vs Go %s", mm, o.res), t)
-		}
+		c.Fail("", "Total.Merge: "+what, t)
 		return
 	}
 	if uniform {
@@ -1395,11 +1392,7 @@ func judgeMerge(c *core.Ctx, t tcase, o goOut, resp []string, key string) {
 			return
 		}
 		if bad != "" {
-			class := ""
-			if weird {
-				class = "merge-exempt-group-with-surcharge"
-			}
-			c.Fail(class, "Total.Merge: figures are not the sums of the operands': "+bad, t)
+			c.Fail("", "Total.Merge: figures are not the sums of the operands': "+bad, t)
 			return
 		}
 		// order independence
@@ -1407,8 +1400,6 @@ func judgeMerge(c *core.Ctx, t tcase, o goOut, resp []string, key string) {
 			class := ""
 			if dup {
 				class = "duplicate-groups-in-summary"
-			} else if weird {
-				class = "merge-exempt-group-with-surcharge"
 			}
 			c.Fail(class, fmt.Sprintf("t1.Merge(t2) and t2.Merge(t1) differ beyond row order: %s vs %s", o.res, o.aux[0]), t)
 			return
@@ -1453,15 +1444,11 @@ func judgePay(c *core.Ctx, t tcase, o goOut, resp []string, key string) {
 		}
 	}
 	c.Count(fmt.Sprintf("pay-currencies:%d", len(curs)), 1)
+	if weird {
+		c.Count("pay:document-summary-with-exempt-surcharge", 1)
+	}
 	if o.pan != "" {
-		class := ""
-		if weird {
-			class = "merge-exempt-group-with-surcharge"
-		}
-		c.Fail(class, "Payment.Calculate panicked: "+o.pan, t)
-		if len(resp) == 1 && !strings.HasPrefix(resp[0], "m err panic") {
-			c.TieBroken("drive:C20/pay", "Go panicked, model says "+resp[0], t)
-		}
+		c.Fail("", "Payment.Calculate panicked: "+o.pan, t)
 		return
 	}
 	if len(resp) != 1 || !strings.HasPrefix(resp[0], "m ") {
@@ -1482,9 +1469,15 @@ func judgePay(c *core.Ctx, t tcase, o goOut, resp []string, key string) {
 	toks := strings.Fields(o.res)
 	goTotal := toks[2+len(p.Lines)]
 	if len(p.Lines) == 0 {
-		if goTotal != sA(num.MakeAmount(0, pe)) && p.Total.V != 0 {
-			c.Fail("payment-without-lines-keeps-total", fmt.Sprintf("a payment without lines keeps its previous total %s instead of zero", goTotal), t)
+		// the empty sum: zero, whatever total the payment carried before
+		var v int64
+		var e uint32
+		if n, _ := fmt.Sscanf(goTotal, "%d:%d", &v, &e); n != 2 || v != 0 {
+			c.Fail("", fmt.Sprintf("a payment without lines has total %s (given before the calculation: %s) instead of zero", goTotal, sA(mk(p.Total))), t)
 			return
+		}
+		if p.Total.V != 0 {
+			c.Count("pay:no-lines-previous-total-reset", 1)
 		}
 	} else {
 		want, class := specTotal(p, pe)
